@@ -207,7 +207,14 @@ func runC12(r *mon.Run) {
 			r.Inconclusive("the two independent DER recognisers of the harness disagree on %x", data)
 			return
 		}
-		lr, ls, err := secec.ParseASN1Signature(data)
+		hl, hcheck := hostileLayout(data, rng.Bytes(8))
+		lr, ls, err := secec.ParseASN1Signature(hl[0])
+		if m := hcheck(); m != "" {
+			w.Fail("c12/ParseASN1Signature:buffer", "ParseASN1Signature wrote to its input or beyond it: "+m, "data", data)
+		}
+		if lr2, ls2, err2 := secec.ParseASN1Signature(data); (err2 == nil) != (err == nil) || (err == nil && (lr2.Equal(lr) != 1 || ls2.Equal(ls) != 1)) {
+			w.Fail("c12/ParseASN1Signature:layout", fmt.Sprintf("ParseASN1Signature(%x) gives a different result when the input slice has spare capacity", data), "data", data)
+		}
 		w.Case(mcl != "canonical" || rc != "random" || sc != "random", []byte("der"), data)
 		if i < 3 {
 			w.Sample(map[string]any{"op": "ParseASN1Signature", "data": hx(data), "mutation": mcl, "r_class": rc, "s_class": sc, "strict_DER_accepts": ok})
@@ -311,7 +318,11 @@ func runC12(r *mon.Run) {
 			w.Class("c12:compact:reject")
 		}
 		w.Case(l >= 63 && l <= 66, []byte("compact"), data)
-		pr, ps, err := secec.ParseCompactSignature(data)
+		hl, hcheck := hostileLayout(data, rng.Bytes(40))
+		pr, ps, err := secec.ParseCompactSignature(hl[0])
+		if m := hcheck(); m != "" {
+			w.Fail("c12/ParseCompactSignature:buffer", "ParseCompactSignature wrote to its input or beyond it: "+m, "data", data)
+		}
 		if (err == nil) != ok64 || (err != nil && (pr != nil || ps != nil)) {
 			w.Fail("c12/ParseCompactSignature", fmt.Sprintf("ParseCompactSignature(%x): err=%v, expected accept=%v", data, err, ok64), "data", data)
 		} else if ok64 {
@@ -358,6 +369,9 @@ func runC12(r *mon.Run) {
 		w.Case(true, []byte("bip66"), data)
 		if i < 3 {
 			w.Sample(map[string]any{"op": "IsValidSignatureEncodingBIP0066", "data": hx(data), "class": cl, "grammar_accepts": want})
+		}
+		if hl, hcheck := hostileLayout(data, rng.Bytes(80)); bitcoin.IsValidSignatureEncodingBIP0066(hl[0]) != want || hcheck() != "" {
+			w.Fail("c12/BIP0066:layout", fmt.Sprintf("IsValidSignatureEncodingBIP0066(%x) [%s] differs from the grammar (%v) when the slice is followed by more bytes within its capacity, or the buffer changed", data, cl, want), "data", data, "class", cl)
 		}
 		if g := bitcoin.IsValidSignatureEncodingBIP0066(data); g != want {
 			w.Fail("c12/BIP0066", fmt.Sprintf("IsValidSignatureEncodingBIP0066(%x) [%s] = %v, BIP-66 grammar says %v", data, cl, g, want), "data", data, "class", cl)
@@ -418,7 +432,11 @@ func runC12(r *mon.Run) {
 		data, mcl := spkiMutant(rng, pt)
 		w.Class("c12:spki:" + mcl)
 		op, opt, ok := oracle.SPKIParseStrict(data)
-		k, err := secec.ParseASN1PublicKey(data)
+		hl, hcheck := hostileLayout(data, rng.Bytes(16))
+		k, err := secec.ParseASN1PublicKey(hl[0])
+		if m := hcheck(); m != "" {
+			w.Fail("c12/ParseASN1PublicKey:buffer", "ParseASN1PublicKey wrote to its input or beyond it: "+m, "data", data)
+		}
 		w.Case(true, []byte("spki"), data)
 		if i < 3 {
 			w.Sample(map[string]any{"op": "ParseASN1PublicKey", "data": hx(data), "mutation": mcl, "strict_DER_accepts": ok})
